@@ -35,6 +35,7 @@ def run(ctx):
     ctx.rule(fc.gabor_supports, "R-C07-gabor-support", ("freq", "time"))
     ctx.rule(_gabor_pair)
     ctx.rule(gammatone_frame)
+    ctx.rule(fc.banks_stateless, "R-C07-pure")
 
 
 def realness(ctx, R="R-C07-realness"):
